@@ -13,5 +13,5 @@ for p in enga engc; do
   go test -c -race -tags verif -vet=off -o ../.build/warm.test ./$p >/dev/null 2>&1 || true
 done
 rm -f ../.build/warm.test
-(cd harness && go test -vet=off -count=1 ./vkit/ >/dev/null 2>&1 && echo "vkit unit tests ok") || echo "WARNING: vkit unit tests failed"
+(go test -vet=off -count=1 ./vkit/ >/dev/null 2>&1 && echo "vkit unit tests ok") || echo "WARNING: vkit unit tests failed"
 echo "setup ok"
